@@ -33,6 +33,7 @@ RULE = (
     "unchanged and vice versa, editing result.dims in place leaves every register's dims unchanged and vice "
     "versa. State key = per register (dims signature, dtype, strides class, value bytes). Non-trivial = "
     "operation executed with probes."
+    " Also: full_like with an array fill value, drivers unchanged by compute (both solvers, time-only dims), arrays built from fresh set-operation results, raw ndarray lifetime parameters replaced later."
 )
 ASSUMPTIONS = [
     "depth bound 2 (quick) / 3 (thorough)",
